@@ -79,7 +79,10 @@ def input_stats(rows):
 
 def run_one(ctx, bindir, harness_bin, src, model_args=()):
     """run harness + model on one source; returns (row, mrow) or None"""
-    _, rows, _ = core.run_harness(bindir, harness_bin, ["replay"], stdin="s0\t(src %s)\n" % quote(src))
+    try:
+        _, rows, _ = core.run_harness(bindir, harness_bin, ["replay"], stdin="s0\t(src %s)\n" % quote(src))
+    except OSError:
+        return None     # the harness binary disappeared (scratch directory cleaned by someone else): no shrinking
     if not rows:
         return None
     exe = os.path.join(core.LEAN, ".lake", "build", "bin", "ergmodel_" + ctx.prop.lower())
